@@ -277,6 +277,12 @@ def run_sync(spec: dict, history: List[list], opts: Optional[dict] = None) -> Ru
                     if sched and not sched.overrun:
                         try:
                             sched.settle()
+                            # an actor's watcher thread polls its (now stopped) child every 10 ms and
+                            # then exits by itself: give such threads one poll interval before the
+                            # census, which is about threads nobody will ever end
+                            if any(n.startswith("actor-") for n in sched.live()):
+                                sched.advance(0.025)
+                                sched.settle()
                         except BaseException:  # noqa
                             pass
                         run.sched_live = sched.live()
